@@ -840,7 +840,8 @@ func (s *Selection) matchKeyword(buf []rune, bbpos int, next bool) (name string,
 }
 
 func (s *Selection) cycleSubgroup(groups []int, bbpos int, next bool) (bpos, epos int, cycled bool) {
-	canCycleSubgroup := (next && s.kmpos < len(groups)-1) || (!next && s.kmpos > 1)
+	// (The position might be the one of a former match, with more subgroups.)
+	canCycleSubgroup := (next && s.kmpos < len(groups)-1) || (!next && s.kmpos > 1 && s.kmpos <= len(groups))
 
 	if !canCycleSubgroup {
 		return
